@@ -21,10 +21,11 @@
     Proofs/DateIso.v (C04_iso_week_nominal), so the theorems below are unconditional (the older form
     of the ISO-week theorem, named _modulo_isoweek, which carries that lemma as an explicit premise,
     is kept under its name). *)
-From Coq Require Import ZArith List Bool.
+From Coq Require Import ZArith List Bool String.
 From V Require Import Base.Int Base.IO Spec.Gregorian.
 From V Require Model.Date Model.Time.
-From V Require Import Model.DateTime Model.C04 Proofs.C04 Proofs.C04Date Proofs.C04Wide.
+From V Require Model.DateExtra Model.C01 Model.Show Judge.C09 Judge.C04 Proofs.C04Show Proofs.C04Holds Proofs.C04HoldsOld Proofs.C04OpDays.
+From V Require Import Model.DateTime Model.C04 Proofs.C04 Proofs.C04Date Proofs.C04Wide Proofs.C04Ops.
 Import ListNotations.
 Open Scope Z_scope.
 
@@ -445,3 +446,367 @@ Theorem C04_with_ymd_and_hms_invalid : forall off y m d h mi s,
   with_ymd_and_hms off y m d h mi s = Val MNone.
 Proof. exact ymdhms_invalid. Qed.
 Print Assumptions C04_with_ymd_and_hms_invalid.
+
+(* ================================================================================================
+   The ops added by the API-coverage sweep (Proofs/C04Ops.v); coverage/OPS_THEOREMS_C04.md maps every
+   op of the dispatcher to the theorems of this file. *)
+
+(* ---- z.uml: FixedOffset::utc_minus_local is the negated offset and never traps, for every offset a
+        FixedOffset can hold (the values east_opt accepts) *)
+Theorem C04_utc_minus_local : forall off, off_ok off -> fo_utc_minus_local off = Val (- off).
+Proof. exact uml_spec. Qed.
+Print Assumptions C04_utc_minus_local.
+Theorem C04_utc_minus_local_of_east : forall s off, east_opt s = Some off -> fo_utc_minus_local off = Val (- s).
+Proof. exact uml_of_east. Qed.
+Print Assumptions C04_utc_minus_local_of_east.
+
+(* ---- z.peast / z.pwest: the deprecated FixedOffset::east / west are the checked forms' values, Panic
+        exactly when those are None, i.e. exactly outside (-86400, 86400) *)
+Theorem C04_east_panicking : forall s,
+  unwrap (east_opt s) = if (-86400 <? s) && (s <? 86400) then Val s else Panic.
+Proof. exact peast_spec. Qed.
+Print Assumptions C04_east_panicking.
+Theorem C04_east_panicking_checked : forall s,
+  match east_opt s with
+  | Some off => unwrap (east_opt s) = Val off /\ off = s /\ off_ok s
+  | None => unwrap (east_opt s) = Panic /\ ~ off_ok s
+  end.
+Proof. exact peast_checked. Qed.
+Print Assumptions C04_east_panicking_checked.
+Theorem C04_west_panicking : forall s, in_i32 s = true ->
+  unwrap_r (west_opt s) = if (-86400 <? s) && (s <? 86400) then Val (- s) else Panic.
+Proof. exact pwest_spec. Qed.
+Print Assumptions C04_west_panicking.
+Theorem C04_west_panicking_checked : forall s, in_i32 s = true ->
+  exists o, west_opt s = Val o /\
+  match o with
+  | Some off => unwrap_r (west_opt s) = Val off /\ off = - s /\ off_ok s /\ east_opt (- s) = Some off
+  | None => unwrap_r (west_opt s) = Panic /\ ~ off_ok s
+  end.
+Proof. exact pwest_checked. Qed.
+Print Assumptions C04_west_panicking_checked.
+
+(* ---- z.mk: DateTime::from_naive_utc_and_offset / deprecated from_utc build exactly the pair (UTC reading,
+        offset) = TimeZone::from_utc_datetime; timezone() / offset() read the offset back *)
+Theorem C04_from_naive_utc_and_offset : forall u off,
+  dz_utc (mk_dtz u off) = u /\ dz_off (mk_dtz u off) = off /\ naive_utc (mk_dtz u off) = u /\
+  mk_dtz u off = from_utc_datetime off u /\
+  (ndt_ok u -> off_ok off -> dtz_ok (mk_dtz u off) /\ wall (mk_dtz u off) = usecs u + off).
+Proof. exact mk_spec. Qed.
+Print Assumptions C04_from_naive_utc_and_offset.
+
+(* ---- z.pfromlocal: deprecated DateTime::from_local ([dz_from_local] = the dispatcher's expression
+        [datetime - offset.fix()] with the panicking operator): the Single of from_local_datetime, Panic where
+        that is None ... *)
+Theorem C04_from_local_panicking_checked : forall off l,
+  match from_local_datetime off l with
+  | Val (MSingle z) => dz_from_local l off = Val z
+  | Val MNone => dz_from_local l off = Panic
+  | Val (MAmbiguous _ _) => False
+  | Panic => dz_from_local l off = Panic
+  | OutOfFuel => dz_from_local l off = OutOfFuel
+  end.
+Proof. exact pfromlocal_checked. Qed.
+Print Assumptions C04_from_local_panicking_checked.
+(* ... i.e. the date-time whose instant is the reading minus the offset, Panic exactly when that instant is
+   outside the supported range.  The condition is [in_rng], not [keep]: like from_local_datetime, this
+   constructor has no MIN_UTC..=MAX_UTC filter, so a leap fraction in the very last second of the range is
+   built (model, judge and the real code agree: z.pfromlocal 0 (262142,365,86399,1999999999)). *)
+Theorem C04_from_local_panicking : forall off l, ndt_ok l -> off_ok off ->
+  if in_rng (usecs l - off)
+  then exists z, dz_from_local l off = Val z /\ from_local_datetime off l = Val (MSingle z) /\
+                 dtz_ok z /\ dz_off z = off /\ usecs (dz_utc z) = usecs l - off /\ frac (dz_utc z) = frac l /\
+                 wall z = usecs l /\ naive_local z = Val l
+  else dz_from_local l off = Panic /\ from_local_datetime off l = Val MNone.
+Proof. exact pfromlocal_spec. Qed.
+Print Assumptions C04_from_local_panicking.
+
+(* ---- z.pcmp: PartialOrd<DateTime<Tz2>> / PartialEq<DateTime<Tz2>>: partial_cmp is always Some of the order
+        of the instants (second count, then fraction), whatever the two offsets / zone types (also against the
+        Utc view of the right operand); <, <=, >, >=, ==, != read it *)
+Theorem C04_partial_cmp_instant : forall a b, dtz_ok a -> dtz_ok b ->
+  let c := cmp_lex [usecs (dz_utc a); frac (dz_utc a)] [usecs (dz_utc b); frac (dz_utc b)] in
+  let p := dz_partial_cmp a b in
+  p = Some c /\ dz_partial_cmp a (dz_to_utc b) = Some c /\ p = Some (dz_cmp a b) /\
+  (c = -1 \/ c = 0 \/ c = 1) /\
+  pc_lt p = (c =? -1) /\ pc_le p = (c <=? 0) /\ pc_gt p = (c =? 1) /\ pc_ge p = (0 <=? c) /\
+  dz_eqb a b = (c =? 0) /\ dz_eqb a (dz_to_utc b) = (c =? 0) /\ negb (dz_eqb a b) = negb (c =? 0) /\
+  (c = 0 <-> usecs (dz_utc a) = usecs (dz_utc b) /\ frac (dz_utc a) = frac (dz_utc b)).
+Proof. exact pcmp_spec. Qed.
+Print Assumptions C04_partial_cmp_instant.
+
+(* ---- z.conv: From<DateTime<FixedOffset>> for DateTime<Utc> and From<DateTime<Utc>> for DateTime<FixedOffset>:
+        same UTC reading, offset 0, never a panic; equal / same order / same hash key as the source *)
+Theorem C04_conversions : forall a,
+  dz_into_utc a = mk_dtz (dz_utc a) 0 /\ dz_utc_into_fixed a = Val (mk_dtz (dz_utc a) 0) /\
+  dz_utc_into_fixed (dz_into_utc a) = Val (mk_dtz (dz_utc a) 0) /\
+  dz_eqb (dz_into_utc a) a = true /\ dz_cmp (dz_into_utc a) a = 0 /\
+  dz_hash_key (dz_into_utc a) = dz_hash_key a /\
+  (dtz_ok a -> dtz_ok (dz_into_utc a) /\ wall (dz_into_utc a) = usecs (dz_utc a)).
+Proof. exact conv_spec. Qed.
+Print Assumptions C04_conversions.
+
+(* ---- z.opmonths: Add<Months> / Sub<Months> ([add] = true / false): the value of the checked form, Panic
+        exactly where it is None ... *)
+Theorem C04_op_months_checked : forall (add : bool) a m,
+  let op := if add then dz_op_add_months a m else dz_op_sub_months a m in
+  match (if add then dz_checked_add_months a m else dz_checked_sub_months a m) with
+  | Val (Some z) => op = Val z
+  | Val None => op = Panic
+  | Panic => op = Panic
+  | OutOfFuel => op = OutOfFuel
+  end.
+Proof. exact opmonths_checked. Qed.
+Print Assumptions C04_op_months_checked.
+(* ... hence (C04_months), for every well-formed date-time: calendar month arithmetic on the wall-clock date,
+   Panic exactly when there is no such supported date or the instant leaves the range *)
+Theorem C04_op_months : forall (add : bool) a m, dtz_ok a -> in_u32 m = true ->
+  let op := if add then dz_op_add_months a m else dz_op_sub_months a m in
+  match month_target_id (wall a / 86400) m (if add then m else - m) with
+  | None => op = Panic
+  | Some n' =>
+      let w' := n' * 86400 + wall a mod 86400 in
+      if in_rng (w' - dz_off a)
+      then exists z, op = Val z /\ dtz_ok z /\ dz_off z = dz_off a /\
+                     wall z = w' /\ frac (dz_utc z) = frac (dz_utc a)
+      else op = Panic
+  end.
+Proof. exact opmonths_spec. Qed.
+Print Assumptions C04_op_months.
+
+(* ---- z.prov: the provided methods of Datelike / Timelike on DateTime<Tz> (year_ce, quarter, num_days_from_ce,
+        num_days_in_month, hour12, num_seconds_from_midnight, iso_week().week0()) return the field of the wall
+        clock W = UTC + offset, also in the one-day headroom, and never panic.  Nominal dates: C08's theorems on
+        year_ce / quarter / num_days_in_month and C01's on num_days_from_ce; the two headroom dates: computed. *)
+Theorem C04_provided_date_fields : forall d, dateok d -> prov_ok d.
+Proof. exact prov_ok_dateok. Qed.
+Print Assumptions C04_provided_date_fields.
+Theorem C04_provided_wallclock : forall a, dtz_ok a ->
+  let w := wall a in let n := w / 86400 in let sod := w mod 86400 in
+  let '(y, m, d) := ymd_of_dn n in let h := sod / 3600 in
+  dz_prov a = Val (VTup [val_of_bool (1 <=? y); VInt (if 1 <=? y then y else 1 - y); VInt ((m - 1) / 3 + 1);
+                         VInt n; VInt (days_in_month (is_leap y) m);
+                         val_of_bool (12 <=? h); VInt (if h mod 12 =? 0 then 12 else h mod 12);
+                         VInt sod; VInt (snd (iso_of_dn n) - 1)]).
+Proof. exact prov_wallclock. Qed.
+Print Assumptions C04_provided_wallclock.
+
+(* ---- z.show: Display / Debug of a zone-aware date-time ([utc] = true: DateTime<Utc>) print the documented
+        text (Judge/C09.v: date_text, time_text, offset_text) of the WALL-CLOCK reading, for every well-formed
+        value: wall clock nominal or in the one-day headroom, any fraction, any offset ([zone_text] = the judge's
+        offset_text, followed by ":ss" when the offset has a seconds part).  C09's C09_shape_dt is the case
+        "nominal wall clock, whole-minute offset, leap fraction only on second 59" (the domain in which the text
+        parses back); this theorem is built from the same writer lemmas of C09 (time_debug_text, time_shape,
+        year_shape, pad_dec_low, off_shape; the proof patterns of date_debug_text / fixed_debug_text without the
+        representation / whole-minute premises) and C04's reading of the wall clock. *)
+Theorem C04_show_wallclock : forall a utc, dtz_ok a ->
+  let n := wall a / 86400 in let sod := wall a mod 86400 in let f := frac (dz_utc a) in
+  let y := fst (yo_of_dn n) in let o := snd (yo_of_dn n) in
+  Show.to_text (Show.dtz_display utc [] a) =
+    Val (Judge.C09.date_text y o ++ B" " ++ Judge.C09.time_text sod f ++ B" " ++
+         (if utc then B"UTC" else C04Show.zone_text (dz_off a))) /\
+  Show.to_text (Show.dtz_debug utc [] a) =
+    Val (Judge.C09.date_text y o ++ B"T" ++ Judge.C09.time_text sod f ++
+         (if utc then B"Z" else C04Show.zone_text (dz_off a))).
+Proof. exact C04Show.show_wallclock. Qed.
+Print Assumptions C04_show_wallclock.
+Theorem C04_show_zone_whole_minute : forall off, off mod 60 = 0 -> C04Show.zone_text off = Judge.C09.offset_text off.
+Proof. exact C04Show.zone_text_whole_minute. Qed.
+Print Assumptions C04_show_zone_whole_minute.
+
+(* ---- z.datenaive: date_naive is the date of the panicking wall-clock reading: the supported date with the
+        wall clock's day number, Panic exactly when the wall clock is in the headroom *)
+Theorem C04_date_naive : forall a, dtz_ok a ->
+  if in_rng (wall a)
+  then exists d, dz_date_naive a = Val d /\ nominal d /\ dn d = wall a / 86400
+  else dz_date_naive a = Panic.
+Proof. exact date_naive_spec. Qed.
+Print Assumptions C04_date_naive.
+(* ---- z.withtz: the fields of with_timezone (its instant: C04_with_timezone_instant) *)
+Theorem C04_with_timezone_fields : forall a off,
+  dz_utc (with_timezone a off) = dz_utc a /\ dz_off (with_timezone a off) = off.
+Proof. exact with_timezone_utc. Qed.
+Print Assumptions C04_with_timezone_fields.
+(* ---- z.acc: the tuple of the dispatcher = the 14 fields of the wall clock (C04_accessors_wallclock and
+        C04_iso_week_wallclock assembled), headroom included *)
+Theorem C04_acc_tuple : forall a, dtz_ok a ->
+  let w := wall a in let n := w / 86400 in let sod := w mod 86400 in
+  let '(y, m, d) := ymd_of_dn n in
+  dz_acc a = Val (VTup [VInt y; VInt m; VInt (m - 1); VInt d; VInt (d - 1);
+                        VInt (ordinal_of_dn n); VInt (ordinal_of_dn n - 1); VInt (weekday_of_dn n);
+                        VInt (sod / 3600); VInt (sod / 60 mod 60); VInt (sod mod 60); VInt (frac (dz_utc a));
+                        VInt (fst (iso_of_dn n)); VInt (snd (iso_of_dn n))]).
+Proof. exact acc_tuple. Qed.
+Print Assumptions C04_acc_tuple.
+
+(* ================================================================================================
+   The executable property (Judge/C04.v, the oracle applied to the implementation's outputs) accepts the
+   model's output on every case of its domain, for the ops below (Proofs/C04Holds.v).  Date-times / naive
+   readings are given in their canonical encoding ([enc_dtz] / [enc_ndt]); [dtz_ok] / [ndt_ok] / [off_ok] are
+   exactly the judge's domain (C04Holds.j_z / j_naive / j_off: the judge decodes such an argument to the
+   instant, fraction and offset the theorems above speak about). *)
+Theorem C04_holds_uml : forall s, Judge.C04.off_ok s = true ->
+  Judge.C04.judge B"z.uml" [VInt s] (run B"z.uml" [VInt s]) = JOk.
+Proof. exact C04Holds.holds_uml. Qed.
+Print Assumptions C04_holds_uml.
+Theorem C04_holds_peast : forall s, in_i32 s = true ->
+  Judge.C04.judge B"z.peast" [VInt s] (run B"z.peast" [VInt s]) = JOk.
+Proof. exact C04Holds.holds_peast. Qed.
+Print Assumptions C04_holds_peast.
+Theorem C04_holds_pwest : forall s, in_i32 s = true ->
+  Judge.C04.judge B"z.pwest" [VInt s] (run B"z.pwest" [VInt s]) = JOk.
+Proof. exact C04Holds.holds_pwest. Qed.
+Print Assumptions C04_holds_pwest.
+Theorem C04_holds_mk : forall off u, ndt_ok u -> off_ok off ->
+  Judge.C04.judge B"z.mk" [VInt off; enc_ndt u] (run B"z.mk" [VInt off; enc_ndt u]) = JOk.
+Proof. exact C04Holds.holds_mk. Qed.
+Print Assumptions C04_holds_mk.
+Theorem C04_holds_conv : forall a, dtz_ok a ->
+  Judge.C04.judge B"z.conv" [enc_dtz a] (run B"z.conv" [enc_dtz a]) = JOk.
+Proof. exact C04Holds.holds_conv. Qed.
+Print Assumptions C04_holds_conv.
+Theorem C04_holds_pcmp : forall a b, dtz_ok a -> dtz_ok b ->
+  Judge.C04.judge B"z.pcmp" [enc_dtz a; enc_dtz b] (run B"z.pcmp" [enc_dtz a; enc_dtz b]) = JOk.
+Proof. exact C04Holds.holds_pcmp. Qed.
+Print Assumptions C04_holds_pcmp.
+Theorem C04_holds_prov : forall a, dtz_ok a ->
+  Judge.C04.judge B"z.prov" [enc_dtz a] (run B"z.prov" [enc_dtz a]) = JOk.
+Proof. exact C04Holds.holds_prov. Qed.
+Print Assumptions C04_holds_prov.
+Theorem C04_holds_pfromlocal : forall off l, ndt_ok l -> off_ok off ->
+  Judge.C04.judge B"z.pfromlocal" [VInt off; enc_ndt l] (run B"z.pfromlocal" [VInt off; enc_ndt l]) = JOk.
+Proof. exact C04Holds.holds_pfromlocal. Qed.
+Print Assumptions C04_holds_pfromlocal.
+(* z.show on the domain of the judge's documented text (C09.judge_show 3: whole-minute offset, leap fraction only
+   on second 59; wall clock nominal or in the headroom), Display (form 0) and Debug (form 1) *)
+Theorem C04_holds_show : forall a form, dtz_ok a -> dz_off a mod 60 = 0 ->
+  (frac (dz_utc a) < 1000000000 \/ Time.tsecs (nd_time (dz_utc a)) mod 60 = 59) -> form = 0 \/ form = 1 ->
+  Judge.C04.judge B"z.show" [enc_dtz a; VInt form] (run B"z.show" [enc_dtz a; VInt form]) = JOk.
+Proof. exact C04Holds.holds_show. Qed.
+Print Assumptions C04_holds_show.
+Example C04_show_inhabited :
+  dtz_ok z_max_p2h /\ dz_off z_max_p2h mod 60 = 0 /\ frac (dz_utc z_max_p2h) < 1000000000 /\
+  in_rng (wall z_max_p2h) = false /\
+  Show.to_text (Show.dtz_display false [] z_max_p2h) = Val (B"+262143-01-01 01:59:59.999999999 +02:00").
+Proof. exact C04Holds.show_inhabited. Qed.
+Print Assumptions C04_show_inhabited.
+(* the premises are satisfiable, also by values whose wall clock is in the headroom *)
+Example C04_ops_inhabited :
+  off_ok 3600 /\ Judge.C04.off_ok (-86399) = true /\ in_i32 86400 = true /\
+  dtz_ok z_max_p2h /\ dtz_ok z_min_m2h /\ ndt_ok NDT_MAX /\ ndt_ok NDT_MIN /\
+  in_rng (usecs NDT_MAX - 3600) = true /\ in_rng (usecs NDT_MAX - -1) = false.
+Proof. exact C04Holds.ops_inhabited. Qed.
+Print Assumptions C04_ops_inhabited.
+
+(* ================================================================================================
+   Judge acceptance for the older ops whose expected output is a function of the instant and the wall clock
+   alone (Proofs/C04HoldsOld.v; same conventions as the C04_holds_* theorems above).  Without a holds theorem
+   remain the ops whose judge has an open class (z.with, z.withtime, z.days, z.months, z.opmonths, z.ymdhms);
+   their results are pinned by the functional theorems above. *)
+Theorem C04_holds_east : forall s, in_i32 s = true ->
+  Judge.C04.judge B"z.east" [VInt s] (run B"z.east" [VInt s]) = JOk.
+Proof. exact C04HoldsOld.holds_east. Qed.
+Print Assumptions C04_holds_east.
+Theorem C04_holds_west : forall s, in_i32 s = true ->
+  Judge.C04.judge B"z.west" [VInt s] (run B"z.west" [VInt s]) = JOk.
+Proof. exact C04HoldsOld.holds_west. Qed.
+Print Assumptions C04_holds_west.
+Theorem C04_holds_fromutc : forall off u, ndt_ok u -> off_ok off ->
+  Judge.C04.judge B"z.fromutc" [VInt off; enc_ndt u] (run B"z.fromutc" [VInt off; enc_ndt u]) = JOk.
+Proof. exact C04HoldsOld.holds_fromutc. Qed.
+Print Assumptions C04_holds_fromutc.
+Theorem C04_holds_fromlocal : forall off l, ndt_ok l -> off_ok off ->
+  Judge.C04.judge B"z.fromlocal" [VInt off; enc_ndt l] (run B"z.fromlocal" [VInt off; enc_ndt l]) = JOk.
+Proof. exact C04HoldsOld.holds_fromlocal. Qed.
+Print Assumptions C04_holds_fromlocal.
+Theorem C04_holds_nutc : forall a, dtz_ok a ->
+  Judge.C04.judge B"z.nutc" [enc_dtz a] (run B"z.nutc" [enc_dtz a]) = JOk.
+Proof. exact C04HoldsOld.holds_nutc. Qed.
+Print Assumptions C04_holds_nutc.
+Theorem C04_holds_nlocal : forall a, dtz_ok a ->
+  Judge.C04.judge B"z.nlocal" [enc_dtz a] (run B"z.nlocal" [enc_dtz a]) = JOk.
+Proof. exact C04HoldsOld.holds_nlocal. Qed.
+Print Assumptions C04_holds_nlocal.
+Theorem C04_holds_datenaive : forall a, dtz_ok a ->
+  Judge.C04.judge B"z.datenaive" [enc_dtz a] (run B"z.datenaive" [enc_dtz a]) = JOk.
+Proof. exact C04HoldsOld.holds_datenaive. Qed.
+Print Assumptions C04_holds_datenaive.
+Theorem C04_holds_time : forall a, dtz_ok a ->
+  Judge.C04.judge B"z.time" [enc_dtz a] (run B"z.time" [enc_dtz a]) = JOk.
+Proof. exact C04HoldsOld.holds_time. Qed.
+Print Assumptions C04_holds_time.
+Theorem C04_holds_acc : forall a, dtz_ok a ->
+  Judge.C04.judge B"z.acc" [enc_dtz a] (run B"z.acc" [enc_dtz a]) = JOk.
+Proof. exact C04HoldsOld.holds_acc. Qed.
+Print Assumptions C04_holds_acc.
+Theorem C04_holds_withtz : forall a off, dtz_ok a -> off_ok off ->
+  Judge.C04.judge B"z.withtz" [enc_dtz a; VInt off] (run B"z.withtz" [enc_dtz a; VInt off]) = JOk.
+Proof. exact C04HoldsOld.holds_withtz. Qed.
+Print Assumptions C04_holds_withtz.
+Theorem C04_holds_fixed : forall a, dtz_ok a ->
+  Judge.C04.judge B"z.fixed" [enc_dtz a] (run B"z.fixed" [enc_dtz a]) = JOk.
+Proof. exact C04HoldsOld.holds_fixed. Qed.
+Print Assumptions C04_holds_fixed.
+Theorem C04_holds_toutc : forall a, dtz_ok a ->
+  Judge.C04.judge B"z.toutc" [enc_dtz a] (run B"z.toutc" [enc_dtz a]) = JOk.
+Proof. exact C04HoldsOld.holds_toutc. Qed.
+Print Assumptions C04_holds_toutc.
+Theorem C04_holds_eq : forall a b, dtz_ok a -> dtz_ok b ->
+  Judge.C04.judge B"z.eq" [enc_dtz a; enc_dtz b] (run B"z.eq" [enc_dtz a; enc_dtz b]) = JOk.
+Proof. exact C04HoldsOld.holds_eq. Qed.
+Print Assumptions C04_holds_eq.
+Theorem C04_holds_cmp : forall a b, dtz_ok a -> dtz_ok b ->
+  Judge.C04.judge B"z.cmp" [enc_dtz a; enc_dtz b] (run B"z.cmp" [enc_dtz a; enc_dtz b]) = JOk.
+Proof. exact C04HoldsOld.holds_cmp. Qed.
+Print Assumptions C04_holds_cmp.
+Theorem C04_holds_hasheq : forall a b, dtz_ok a -> dtz_ok b ->
+  Judge.C04.judge B"z.hasheq" [enc_dtz a; enc_dtz b] (run B"z.hasheq" [enc_dtz a; enc_dtz b]) = JOk.
+Proof. exact C04HoldsOld.holds_hasheq. Qed.
+Print Assumptions C04_holds_hasheq.
+
+(* ================================================================================================
+   z.opdays: impl Add<Days> / Sub<Days> for DateTime<Tz> ([add] = true / false): the value of
+   checked_add_days / checked_sub_days, Panic exactly where those are None ... *)
+Theorem C04_op_days_checked : forall (add : bool) a n,
+  let op := if add then dz_op_add_days a n else dz_op_sub_days a n in
+  match (if add then dz_checked_add_days a n else dz_checked_sub_days a n) with
+  | Val (Some z) => op = Val z
+  | Val None => op = Panic
+  | Panic => op = Panic
+  | OutOfFuel => op = OutOfFuel
+  end.
+Proof. exact C04OpDays.opdays_checked. Qed.
+Print Assumptions C04_op_days_checked.
+(* ... hence (C04_add_days / C04_sub_days), for every well-formed date-time, wall clock nominal or in the
+   headroom, leap-second fraction or not: the wall-clock DATE moves by n days, time of day, fraction and offset
+   are kept (day stepping, not instant stepping); Panic exactly when the target date is not a supported date
+   or the instant leaves the range *)
+Theorem C04_op_add_days : forall a n, dtz_ok a -> in_u64 n = true -> n <> 0 ->
+  let n' := wall a / 86400 + n in
+  let w' := n' * 86400 + wall a mod 86400 in
+  if dn_in_range n' && keep (w' - dz_off a) (frac (dz_utc a))
+  then exists z, dz_op_add_days a n = Val z /\ dtz_ok z /\ dz_off z = dz_off a /\
+                 wall z = w' /\ frac (dz_utc z) = frac (dz_utc a)
+  else dz_op_add_days a n = Panic.
+Proof. exact C04OpDays.op_add_days_spec. Qed.
+Print Assumptions C04_op_add_days.
+Theorem C04_op_add_days_zero : forall a, dz_op_add_days a 0 = Val a.
+Proof. exact C04OpDays.op_add_days_zero. Qed.
+Print Assumptions C04_op_add_days_zero.
+Theorem C04_op_sub_days : forall a n, dtz_ok a -> in_u64 n = true ->
+  let n' := wall a / 86400 - n in
+  let w' := n' * 86400 + wall a mod 86400 in
+  if ((n =? 0) || dn_in_range n') && in_rng (w' - dz_off a)
+  then exists z, dz_op_sub_days a n = Val z /\ dtz_ok z /\ dz_off z = dz_off a /\
+                 wall z = w' /\ frac (dz_utc z) = frac (dz_utc a)
+  else dz_op_sub_days a n = Panic.
+Proof. exact C04OpDays.op_sub_days_spec. Qed.
+Print Assumptions C04_op_sub_days.
+(* a leap-second wall clock (09:59:59 + 1.5 s at +01:00 on the last day) keeps its fraction one day back; one
+   day forward panics; zero days is the identity *)
+Example C04_op_days_example :
+  let a := mk_dtz (mk_ndt (Date.D_MAX) (Time.mk_time 32399 1500000000)) 3600 in
+  dz_op_sub_days a 1 = Val (mk_dtz (mk_ndt (Date.D_MAX - 16) (Time.mk_time 32399 1500000000)) 3600) /\
+  dz_op_add_days a 1 = Panic /\ dz_op_add_days a 0 = Val a.
+Proof. exact C04OpDays.opdays_examples. Qed.
+Print Assumptions C04_op_days_example.
